@@ -88,7 +88,11 @@ CprClauses(r) ==
                  r.block => /\ r.bfpp = r.fpp /\ r.bscat = r.scat /\ r.brp = r.rp /\ r.bx = r.x
                             /\ C0!WellFormed(r.bApp) /\ C0!SameOperator(r.bApp, r.App)>> >>
 CprUpdClauses(r) == << <<"partial-update-no-crash", ~r.crash /\ ~r.hang>>,
+                       <<"partial-update-unchanged-transfer", (~r.crash /\ ~r.hang) => r.res.rpsame>>,
                        <<"partial-update-unchanged-action", (~r.crash /\ ~r.hang) => (r.res.same /\ r.res.d0lo = r.res.d1lo /\ r.res.d0hi = r.res.d1hi)>> >>
+\* a CPR observation that is not an integer although the data make every quantity one: judged in long double
+CprDevClauses(r) == << <<"weights=first-row-of-inverse-diagonal-block", r.variant = "cpr" => r.werr <= Tol>>,
+                       <<"two-stage-observation-exact", r.variant = "cpr" /\ r.werr <= Tol>> >>
 CprOClauses(r) == IF r.singular THEN <<>> ELSE << <<"two-stage-formula(O)", r.err <= Tol>> >>
 DeflClauses(r) == << <<"deflated-solve-runs", r.exc = "">>,
                      <<"solves-original-system", r.exc = "" => r.rel12 <= 1000000>>,                 \* true residual <= 1e-6 (tol 1e-10)
@@ -100,6 +104,7 @@ Clauses(r) ==
       [] r.k = "pattern" -> PatternClauses(r)
       [] r.k = "cpr"     -> CprClauses(r)
       [] r.k = "cprupd"  -> CprUpdClauses(r)
+      [] r.k = "cprdev"  -> CprDevClauses(r)
       [] r.k = "cprO"    -> CprOClauses(r)
       [] r.k = "defl"    -> DeflClauses(r)
       [] OTHER           -> << <<"unknown-record", FALSE>> >>
